@@ -1,33 +1,16 @@
 (* Case dispatcher: one text line in, one text line out. All parsing is Gallina so that the same function is
-   evaluated by the extracted OCaml driver and, for the audit subset, by vm_compute inside Coq. *)
+   evaluated by the extracted OCaml driver and, for the audit subset, by vm_compute inside Coq.
+   One `RunCxx.run` per property; the first word of the line selects it. *)
 From Coq Require Import List NArith.
 From Coq.Strings Require Import Byte.
-From EV Require Import Base.Bytes Base.Sha256 Model.FastMerkle.
+From EV Require Import Base.Bytes Base.Sha256 Extract.RunUtil.
+From EV Require Extract.RunC18.
 Import ListNotations.
-Open Scope N_scope.
-
-Definition err (s : blit) : bytes := "modelerr "%lb ++ s.
-Definition zero32 : bytes := repeat x00 32.
-Definition fmr256 (ls : list bytes) : bytes := fmr_ctr zero32 cmp256 ls.
-Definition fmr256_spec (ls : list bytes) : bytes := fmr_spec zero32 cmp256 ls.
-
-Fixpoint all_some {A} (l : list (option A)) : option (list A) :=
-  match l with [] => Some [] | Some x :: r => match all_some r with Some t => Some (x :: t) | None => None end | None :: _ => None end.
-(* comma separated hex items; "-" is the empty list *)
-Definition hexlist (s : bytes) : option (list bytes) :=
-  if bytes_eqb s "-"%lb then Some [] else all_some (map bytes_of_hex (split_on x2c s [])).
-
-Definition run_C18 (args : list bytes) : bytes :=
-  match args with
-  | [ls] => match hexlist ls with
-            | Some leaves => hex_of_bytes (fmr256 leaves)
-            | None => err "hex" end
-  | _ => err "args" end.
 
 Definition run_line (line : bytes) : bytes :=
   match words line with
   | k :: args =>
-      if bytes_eqb k "C18"%lb then run_C18 args
-      else if bytes_eqb k "sha256"%lb then match args with [h] => match bytes_of_hex h with Some b => hex_of_bytes (sha256 b) | None => err "hex" end | _ => err "args" end
+      if bytes_eqb k "C18"%lb then RunC18.run args
+      else if bytes_eqb k "sha256"%lb then match args with [h] => match hexarg h with Some b => hex_of_bytes (sha256 b) | None => err "hex" end | _ => err "args" end
       else err "kind"
   | [] => err "empty" end.
